@@ -73,6 +73,12 @@ Proof.
     exact (tl_alloc _ L _ _ E).
 Qed.
 
+Lemma unstale_facts w : TreeFactsL w ->
+  TreeFacts (unstale w) /\ w_models (unstale w) = w_models w /\ w_next (unstale w) = w_next w /\
+  (forall i, option_map (fun n => (n_name n, n_type n, n_content n)) (w_nodes (unstale w) i) =
+             option_map (fun n => (n_name n, n_type n, n_content n)) (w_nodes w i)).
+Proof. intros L. split; [apply TreeFacts_unstale; exact L|]. split; [reflexivity|]. split; [reflexivity|exact (NV_unstale w)]. Qed.
+
 Lemma TreeFacts_L w : TreeFacts w -> TreeFactsL w.
 Proof. intros F. constructor; [apply (tf_up _ F)|apply (tf_nodup _ F)|apply (tf_down _ F)|apply (tf_roots _ F)|apply (tf_depth _ F)|apply (tf_alloc _ F)]. Qed.
 
